@@ -143,7 +143,10 @@ def harness_build(profile="debug", hooks=True, features=None, extra_rustflags=""
     hdir = hdir or os.path.join(VERIF, "harness")
     lock = os.path.join(hdir, "Cargo.lock")
     if not os.path.exists(lock):
-        shutil.copy(os.path.join(REPO, "Cargo.lock"), lock)
+        for cand in (os.path.join(REPO, "Cargo.lock"), os.path.join(VERIF, "harness", "Cargo.lock"), "/repo/Cargo.lock"):
+            if os.path.exists(cand):
+                shutil.copy(cand, lock)
+                break
     tag = tag or (("hook" if hooks else "plain") + ("-" + ("_".join(features) or "none") if features is not None else "")
                   + ("-" + re.sub(r"[^a-z0-9]+", "", extra_rustflags.lower()) if extra_rustflags else ""))
     target = target or os.path.join(BUILD, "target-" + tag)
